@@ -14,6 +14,9 @@ mod ops2;
 mod ops3;
 mod gen2;
 mod gen3;
+#[path = "/repo/examples/multi-thread/scope.rs"]
+#[allow(dead_code)]
+mod scope;
 
 use std::io::{BufRead, Write};
 
